@@ -33,25 +33,50 @@ def relayout(A, key=None):
     return big[1::3][: A.shape[0]]
 
 
-def npint(v, key):
+NARROW = [np.int8, np.uint8, np.int16, np.uint16, np.int32, np.int64, np.uint64, np.intp]
+
+
+def npint(v, key, narrow=False):
     """An integer argument the way callers often get it - np.int64 (from np.where, np.arange, shape arithmetic) or
-    np.int32 - in one case out of three; a plain int otherwise.  Deterministic in `key`."""
+    np.int32 - in one case out of three; a plain int otherwise.  With narrow=True the numpy types also include the
+    small and unsigned ones (np.int8 ... np.uint64, e.g. `A.sum()` of a uint8 matrix), whenever the value fits.
+    Deterministic in `key`."""
     if isinstance(v, (bool, np.bool_)) or not isinstance(v, (int, np.integer)):
         return v
+    v = int(v)
     k = key % 6
+    if narrow and k in (0, 1, 2):
+        T = NARROW[(key // 6) % len(NARROW)]
+        if T is np.uint64 and narrow == "members":
+            T = np.uint16         # [np.uint64(3), 5] becomes a float64 array in numpy: not an index list any more - the caller's problem
+        info = np.iinfo(T)
+        if info.min <= v <= info.max:
+            return T(v)
+        return np.int64(v)
     if k == 0:
         return np.int64(v)
-    if k == 1 and abs(int(v)) < 2 ** 31:
+    if k == 1 and abs(v) < 2 ** 31:
         return np.int32(v)
-    return int(v)
+    return v
 
 
-def npints(values, key, kind=None):
-    """A collection of indices with some members numpy integers; container type preserved (list / tuple / set)."""
+def typed_int(v, tname):
+    """v as the named numpy integer type when it fits (else as a Python int)."""
+    if tname in (None, "int"):
+        return int(v)
+    T = getattr(np, tname)
+    info = np.iinfo(T)
+    return T(v) if info.min <= int(v) <= info.max else int(v)
+
+
+def npints(values, key, narrow=False):
+    """A collection of indices with some members numpy integers; lists / tuples keep their type, a set comes back
+    as a set or - one time in three - as a frozenset (both are 'a set of nodes')."""
     if isinstance(values, (set, frozenset)):
-        return type(values)(npint(v, key + 2 * n) for n, v in enumerate(sorted(values)))
+        out = [npint(v, key + 2 * n, narrow and "members") for n, v in enumerate(sorted(values))]
+        return frozenset(out) if key % 3 == 1 else set(out)
     if isinstance(values, (list, tuple)):
-        return type(values)(npint(v, key + 2 * n) for n, v in enumerate(values))
+        return type(values)(npint(v, key + 2 * n, narrow and "members") for n, v in enumerate(values))
     return values
 
 
